@@ -5,7 +5,7 @@ from ..ref import P, L, to32, le
 
 REQUIRED = ['u:small-order', 'u:twist', 'u:noncanon', 'u:bit255', 'u:oncurve', 'u:random', 'dh:agree', 'conv:identity',
             'conv:u=-1', 'conv:twist', 'conv:roundtrip', 'eq:modp', 'contributory:false', 'contributory:true', 'iterated',
-            'ed2x', 'u:near-special']
+            'ed2x', 'u:near-special', 'os-random']
 
 
 def B(x):
@@ -42,6 +42,30 @@ def x25519_calls(ctx, n):
             ctx.add('ed.mulbaseclamped', kb.hex(), expect=pts.expect_ed(vals.Pt(k, 0).affine()), cls='pk')
             rid = ctx.add('ed.mulbaseclamped', kb.hex())
             ctx.add('ed.tomont', ctx.ref(rid, 1), expect=[pk], cls='pk')
+
+
+def os_random(ctx, n):
+    """the OS-randomness constructors (feature getrandom): the secret is unknown, but the published key and the shared
+    secret must agree with what the peer, whose secret is ours, computes from that published key"""
+    rng = ctx.rng
+    for _ in range(n):
+        peer = vals.rb(rng, 32)
+
+        def judge(t, peer=peer):
+            if len(t) < 7:
+                return 'too few output tokens: %r' % (t,)
+            for i, name in ((0, 'EphemeralSecret'), (2, 'ReusableSecret'), (4, 'StaticSecret')):
+                pk, ss = bytes.fromhex(t[i]), bytes.fromhex(t[i + 1])
+                if ref.x25519(peer, pk) != ss:
+                    return '%s::random(): the peer derives a different shared secret from the published key' % name
+                if pk == bytes(32) or pk == ref.x25519(bytes(32), to32(9)):
+                    return '%s::random() published the key of an all-zero secret' % name
+            if ref.x25519(bytes.fromhex(t[6]), to32(9)).hex() != t[4]:
+                return 'StaticSecret::random(): to_bytes() is not the secret of the published key'
+            if len({t[0], t[2], t[4]}) != 3:
+                return 'two fresh secrets published the same key'
+            return None
+        ctx.add('x.random', peer.hex(), expect=judge, cls='os-random', info='nondet')
 
 
 def agreement(ctx, n):
@@ -158,6 +182,7 @@ def make(seed, size, iters=0):
     else:
         x25519_calls(ctx, 30 + size)
         agreement(ctx, max(4, size // 6))
+        os_random(ctx, 2)
         conversions(ctx, 20 + size // 4)
         equality(ctx, max(6, size // 6))
         ed_to_x(ctx, max(3, size // 10))
